@@ -71,7 +71,7 @@ def check_c02(ctx, sess, out):
     lb = sess.matcher.lattice_best or []
     if not lb:
         return vs
-    model, geom, store, trace = ctx.model, ctx.geom, ctx.store, ctx.trace
+    model, geom, store, trace = ctx.model, ctx.geom, ctx.store, sess.cur_trace
     recs = []
     for i, e in enumerate(lb):
         em, eo = e.edge_m, e.edge_o
@@ -169,10 +169,10 @@ def check_c02(ctx, sess, out):
 
 
 # ----------------------------------------------------------------------------- C03
-def ideal_start(ctx):
+def ideal_start(ctx, trace=None):
     """(admissible start states, fragile?) by full scan with the reference model."""
     model, store, geom = ctx.model, ctx.store, ctx.geom
-    o = _xy(ctx.trace[0])
+    o = _xy((trace or ctx.trace)[0])
     eps = 1e-7 * (1 + ctx.maxabs) if not ctx.latlon else 0.3
     adm = []
     fragile = False
@@ -251,7 +251,7 @@ def check_c03(ctx, sess, out):
             return vs
         if out.kind in EXPANDING or sess.jumped:
             return vs
-        adm, fragile = ideal_start(ctx)
+        adm, fragile = ideal_start(ctx, sess.cur_trace)
         if fragile:
             ctx.fragile += 1
             return vs
@@ -376,7 +376,7 @@ def check_c05(ctx, sess, out):
     vs = []
     m = sess.matcher
     lb = m.lattice_best or []
-    model, geom, trace, store = ctx.model, ctx.geom, ctx.trace, ctx.store
+    model, geom, trace, store = ctx.model, ctx.geom, sess.cur_trace, ctx.store
     for i, e in enumerate(lb):
         where = "entry %d (%r obs=%d ne=%d)" % (i, e.shortkey, e.obs, e.obs_ne)
         if e.dist_obs > model.max_dist:
